@@ -183,7 +183,10 @@ def impl(case):
         elif k == "op_update":
             # OperatorTemplate.update_template with an equation edit and no `variables`: a derived template is returned,
             # the variables the new equation does not use are dropped from ITS dict only (fix D44)
-            _find_op(c, o[1]).update_template(name=o[1] + "_derived", equations=[DERIVED_EQ[o[1]]])
+            form = o[2] if len(o) > 2 else "list"        # the three forms update_template accepts for `equations`
+            eqs = {"list": [DERIVED_EQ[o[1]]], "str": DERIVED_EQ[o[1]],
+                   "dict": {"replace": {"k": "k"}, "append": "+ 0.0", "add": ["d/dt * w_new = 1.0"]}}[form]
+            _find_op(c, o[1]).update_template(name=o[1] + "_derived", equations=eqs)
             outs.append("done")
         elif k == "get_edge":
             try:
@@ -321,7 +324,7 @@ def gen_case(rng, maxlen):
         elif r < 0.56:
             seq.append(["deepcopy"])
         elif r < 0.6:
-            seq.append(["op_update", rng.choice(oplist)])
+            seq.append(["op_update", rng.choice(oplist), rng.choice(["list", "str", "dict"])])
         elif r < 0.69 and r >= 0.67:
             es = circs[root]["edges"]
             e = rng.choice(es) if es and rng.random() < 0.85 else ["A/op/x", "Z/op/u", "1"]
